@@ -82,6 +82,7 @@ a *= b
 a **= b
 a >>= b
 a -= b
+a = 6
 if a:
     pass
 r = 1 if a else 2
